@@ -28,7 +28,7 @@ class C06(flow.Spec):
     partial = []
 
     def gen_cases(self, rng, tier):
-        n = {'quick': 500, 'thorough': 12000, 'search': 2500}[tier]
+        n = {'quick': 1000, 'thorough': 20000, 'search': 3000}[tier]
         return [self.gen_one(rng) for _ in range(n)]
 
     def gen_one(self, rng):
